@@ -1,22 +1,20 @@
 (* C01 extension: one character of the ANSI parser on the WEAK invariant W (Proofs/WeakInv.v).
 
-   NP Q o : the outcome o is an action or an error value whose screen state satisfies W; it is never a panic; it is the
-   macro-nesting overflow (ODiverge) only if Q.  Proved for every parser state, for ANY macro table, before or after a
-   text-area resize; the macro replay is covered by induction on the nesting bound. *)
+   NP o : the outcome o is an action or an error value (among them ODeep, the error of a macro invocation nested deeper
+   than MAX_MACRO_NESTING) whose screen state satisfies W; it is never a panic.  Proved for every parser state, for ANY
+   macro table, before or after a text-area resize; the macro replay is covered by induction on the nesting budget. *)
 From Coq Require Import ZArith NArith List Bool Lia.
 From IE Require Import Model.TermCore Model.AnsiTok Proofs.TermProofs Proofs.AnsiProofs Proofs.WeakInv.
 From IE Require Lib.C17Lib Model.Font Proofs.FontDcsSafe.
 Import ListNotations.
 Local Open Scope Z_scope.
 
-Definition NP (Q : Prop) (o : outcome) : Prop :=
-  match o with OOk m | OErr m => W (tm m) | OPanic _ => False | ODiverge => Q end.
-Lemma np_ok : forall Q t p, W t -> NP Q (ok t p). Proof. intros; assumption. Qed.
-Lemma np_err : forall Q t p, W t -> NP Q (err t p). Proof. intros; assumption. Qed.
-Lemma np_lift : forall Q r p, okW r -> NP Q (lift r p).
-Proof. intros Q r p (t' & E & HW). rewrite E. exact HW. Qed.
-Lemma np_weaken : forall (Q Q' : Prop) o, (Q -> Q') -> NP Q o -> NP Q' o.
-Proof. intros Q Q' [m|m|s|] H; cbn; auto. Qed.
+Definition NP (o : outcome) : Prop :=
+  match o with OOk m | OErr m | ODeep m => W (tm m) | OPanic _ => False end.
+Lemma np_ok : forall t p, W t -> NP (ok t p). Proof. intros; assumption. Qed.
+Lemma np_err : forall t p, W t -> NP (err t p). Proof. intros; assumption. Qed.
+Lemma np_lift : forall r p, okW r -> NP (lift r p).
+Proof. intros r p (t' & E & HW). rewrite E. exact HW. Qed.
 
 (* close a goal [W t'] from HW : W t for the usual shapes (selected syntactically) *)
 Ltac wkeep HW :=
@@ -78,16 +76,16 @@ Ltac wok HW := apply np_ok; wkeep HW.
 Ltac werr HW := apply np_err; wkeep HW.
 Ltac wlift HW := apply np_lift; wlim HW.
 Ltac wifs := repeat match goal with
-                    | |- NP _ (if ?c then _ else _) => destruct c
-                    | |- NP _ (match ?l with [] => _ | _ :: _ => _ end) => destruct l
-                    | |- NP _ (match ?o with Some _ => _ | None => _ end) => destruct o
-                    | |- NP _ (let '(_, _) := ?x in _) => destruct x
+                    | |- NP (if ?c then _ else _) => destruct c
+                    | |- NP (match ?l with [] => _ | _ :: _ => _ end) => destruct l
+                    | |- NP (match ?o with Some _ => _ | None => _ end) => destruct o
+                    | |- NP (let '(_, _) := ?x in _) => destruct x
                     end.
 
 (* ---- the commands of ansi_commands.rs ------------------------------------------------------------------------------------- *)
-Lemma cmd_sgr_np : forall Q t p, W t -> NP Q (cmd_sgr t p).
+Lemma cmd_sgr_np : forall t p, W t -> NP (cmd_sgr t p).
 Proof.
-  intros Q t p HW. unfold cmd_sgr.
+  intros t p HW. unfold cmd_sgr.
   set (t1 := match nums p with [] => caret_reset_color t | _ => t end).
   assert (P1 : pgeo t1 = pgeo t) by (subst t1; destruct (nums p); reflexivity).
   pose proof (sgr_loop_pgeo (S (length (nums p))) t1 (nums p)) as P2.
@@ -95,125 +93,125 @@ Proof.
   assert (P3 : pgeo t2 = pgeo t) by (rewrite P2; exact P1).
   destruct e; [apply np_err|apply np_ok]; (eapply W_pgeo; [exact P3|exact HW]).
 Qed.
-Lemma cmd_decstbm_np : forall Q t p, W t -> NP Q (cmd_decstbm t p).
+Lemma cmd_decstbm_np : forall t p, W t -> NP (cmd_decstbm t p).
 Proof.
-  intros Q t p HW. unfold cmd_decstbm. destruct (margins_args p (th t)) as [[a b]|]; [|werr HW].
+  intros t p HW. unfold cmd_decstbm. destruct (margins_args p (th t)) as [[a b]|]; [|werr HW].
   apply np_ok. apply upper_left_W. apply set_margins_tb_WG. apply HW.
 Qed.
-Lemma cmd_decslrm_np : forall Q t p, W t -> NP Q (cmd_decslrm t p).
-Proof. intros Q t p HW. unfold cmd_decslrm. destruct (margins_args p (th t)) as [[a b]|]; [wok HW|werr HW]. Qed.
-Lemma cmd_csr_np : forall Q t p, W t -> NP Q (cmd_csr t p).
+Lemma cmd_decslrm_np : forall t p, W t -> NP (cmd_decslrm t p).
+Proof. intros t p HW. unfold cmd_decslrm. destruct (margins_args p (th t)) as [[a b]|]; [wok HW|werr HW]. Qed.
+Lemma cmd_csr_np : forall t p, W t -> NP (cmd_csr t p).
 Proof.
-  intros Q t p HW. unfold cmd_csr.
+  intros t p HW. unfold cmd_csr.
   destruct (nums p) as [|a [|b [|c [|d [|e r]]]]]; try werr HW;
     (apply np_ok; apply set_margins_lr_W, set_margins_tb_W, upper_left_W; apply HW).
 Qed.
-Lemma cmd_ssm_np : forall Q t p, (exists a b, nums p = [a; b]) -> W t -> NP Q (cmd_ssm t p).
+Lemma cmd_ssm_np : forall t p, (exists a b, nums p = [a; b]) -> W t -> NP (cmd_ssm t p).
 Proof.
-  intros Q t p (a & b & E) HW. unfold cmd_ssm. rewrite E. wifs; first [wok HW|werr HW].
+  intros t p (a & b & E) HW. unfold cmd_ssm. rewrite E. wifs; first [wok HW|werr HW].
 Qed.
-Lemma cmd_ech_np : forall Q t p, W t -> NP Q (cmd_ech t p).
+Lemma cmd_ech_np : forall t p, W t -> NP (cmd_ech t p).
 Proof.
-  intros Q t p HW. unfold cmd_ech. destruct (nums p) as [|n r]; [|wlift HW].
+  intros t p HW. unfold cmd_ech. destruct (nums p) as [|n r]; [|wlift HW].
   destruct (caret_erase_okW t 1 HW) as (t1 & E & H1). rewrite E. apply np_err. exact H1.
 Qed.
-Lemma cmd_fill_rect_np : forall Q t p, W t -> NP Q (cmd_fill_rect t p).
+Lemma cmd_fill_rect_np : forall t p, W t -> NP (cmd_fill_rect t p).
 Proof.
-  intros Q t p HW. unfold cmd_fill_rect. destruct (nums p) as [|ch [|a [|b [|c [|d [|e r]]]]]]; try werr HW.
+  intros t p HW. unfold cmd_fill_rect. destruct (nums p) as [|ch [|a [|b [|c [|d [|e r]]]]]]; try werr HW.
   destruct (is_scalar ch); [|werr HW]. destruct (rect_area t a b c d) as [[[tl lc] bl] rc]. wok HW.
 Qed.
-Lemma cmd_erase_rect_np : forall Q t p, W t -> NP Q (cmd_erase_rect t p).
+Lemma cmd_erase_rect_np : forall t p, W t -> NP (cmd_erase_rect t p).
 Proof.
-  intros Q t p HW. unfold cmd_erase_rect. destruct (nums p) as [|a [|b [|c [|d [|e r]]]]]; try werr HW.
-  destruct (rect_area t a b c d) as [[[tl lc] bl] rc]; wok HW.
+  intros t p HW. unfold cmd_erase_rect. destruct (nums p) as [|a [|b [|c [|d [|e r]]]]]; try werr HW.
+  all: try (destruct (rect_area t a b c d) as [[[tl lc] bl] rc]; wok HW).
 Qed.
-Lemma cmd_sel_erase_rect_np : forall Q t p, W t -> NP Q (cmd_sel_erase_rect t p).
+Lemma cmd_sel_erase_rect_np : forall t p, W t -> NP (cmd_sel_erase_rect t p).
 Proof.
-  intros Q t p HW. unfold cmd_sel_erase_rect. destruct (nums p) as [|a [|b [|c [|d [|e r]]]]]; try werr HW.
-  destruct (rect_area t a b c d) as [[[tl lc] bl] rc]; wok HW.
+  intros t p HW. unfold cmd_sel_erase_rect. destruct (nums p) as [|a [|b [|c [|d [|e r]]]]]; try werr HW.
+  all: try (destruct (rect_area t a b c d) as [[[tl lc] bl] rc]; wok HW).
 Qed.
 (* CSI 8;h;w t: the text-area resize keeps W (it does not keep Inv09) *)
-Lemma cmd_window_np : forall Q t p, W t -> NP Q (cmd_window t p).
+Lemma cmd_window_np : forall t p, W t -> NP (cmd_window t p).
 Proof.
-  intros Q t p HW. unfold cmd_window. destruct (nums p) as [|k [|h [|w [|b [|e r]]]]]; try werr HW.
+  intros t p HW. unfold cmd_window. destruct (nums p) as [|k [|h [|w [|b [|e r]]]]]; try werr HW.
   - destruct (k =? 8); [|werr HW]. apply np_ok. apply resize_W; [lia|lia|exact HW].
   - wifs; first [wok HW|werr HW].
 Qed.
-Lemma cmd_font_selection_np : forall Q t p, W t -> NP Q (cmd_font_selection t p).
-Proof. intros Q t p HW. unfold cmd_font_selection. destruct (nums p) as [|a [|b [|c r]]]; try werr HW. wifs; [wok HW|werr HW]. Qed.
-Lemma cmd_reset_margins_np : forall Q t p, W t -> NP Q (cmd_reset_margins t p).
-Proof. intros Q t p HW. unfold cmd_reset_margins. wok HW. Qed.
+Lemma cmd_font_selection_np : forall t p, W t -> NP (cmd_font_selection t p).
+Proof. intros t p HW. unfold cmd_font_selection. destruct (nums p) as [|a [|b [|c r]]]; try werr HW. wifs; [wok HW|werr HW]. Qed.
+Lemma cmd_reset_margins_np : forall t p, W t -> NP (cmd_reset_margins t p).
+Proof. intros t p HW. unfold cmd_reset_margins. wok HW. Qed.
 
 (* ---- DCS / OSC / music: the screen is not touched --------------------------------------------------------------------------------- *)
-Lemma execute_dcs_np : forall Q t p, W t -> NP Q (execute_dcs t p).
+Lemma execute_dcs_np : forall t p, W t -> NP (execute_dcs t p).
 Proof.
-  intros Q t p HW. unfold execute_dcs. destruct (starts_with _ _).
+  intros t p HW. unfold execute_dcs. destruct (starts_with _ _).
   { unfold load_custom_font.
     pose proof (FontDcsSafe.font_dcs_total Base64.decode (map Z.to_N (rev (pstr p)))) as T.
     destruct (Font.load_custom_font _ _) as [[slot f]|e|s|]; first [exact HW|contradiction]. }
   destruct (lead_nums _ _) as [ns rest].
-  repeat match goal with |- NP _ (match ?x with _ => _ end) => destruct x end; exact HW.
+  repeat match goal with |- NP (match ?x with _ => _ end) => destruct x end; exact HW.
 Qed.
-Lemma parse_osc_np : forall Q t p, W t -> NP Q (parse_osc t p).
+Lemma parse_osc_np : forall t p, W t -> NP (parse_osc t p).
 Proof.
-  intros Q t p HW. unfold parse_osc. destruct (lead_nums _ _) as [ns rest].
+  intros t p HW. unfold parse_osc. destruct (lead_nums _ _) as [ns rest].
   repeat match goal with
-         | |- NP _ (match ?x with _ => _ end) => destruct x
-         | |- NP _ (if ?x then _ else _) => destruct x
+         | |- NP (match ?x with _ => _ end) => destruct x
+         | |- NP (if ?x then _ else _) => destruct x
          end; exact HW.
 Qed.
-Lemma parse_music_np : forall Q t p ms ch, W t -> NP Q (parse_music t p ms ch).
+Lemma parse_music_np : forall t p ms ch, W t -> NP (parse_music t p ms ch).
 Proof.
-  intros Q t p ms ch HW. unfold parse_music, parse_default_music. destruct ms; wifs; exact HW.
+  intros t p ms ch HW. unfold parse_music, parse_default_music. destruct ms; wifs; exact HW.
 Qed.
 
 (* ---- CSI ------------------------------------------------------------------------------------------------------------------------------ *)
-Lemma csi_final_np : forall Q t p is_start ch, W t -> NP Q (csi_final t p is_start ch).
+Lemma csi_final_np : forall t p is_start ch, W t -> NP (csi_final t p is_start ch).
 Proof.
-  intros Q t p is_start ch HW. unfold csi_final.
+  intros t p is_start ch HW. unfold csi_final.
   repeat match goal with
-         | |- NP _ (if ?c then _ else _) => destruct c
-         | |- NP _ (match nums p with _ => _ end) => destruct (nums p) as [|n1 [|n2 r]]
-         | |- NP _ (match hpos_line t with _ => _ end) => destruct (hpos_line t)
-         | |- NP _ (match ?l with [] => _ | _ :: _ => _ end) => destruct l
+         | |- NP (if ?c then _ else _) => destruct c
+         | |- NP (match nums p with _ => _ end) => destruct (nums p) as [|n1 [|n2 r]]
+         | |- NP (match hpos_line t with _ => _ end) => destruct (hpos_line t)
+         | |- NP (match ?l with [] => _ | _ :: _ => _ end) => destruct l
          end;
   first [ apply cmd_sgr_np; exact HW | apply cmd_decslrm_np; exact HW | apply cmd_ech_np; exact HW
         | apply cmd_csr_np; exact HW | apply cmd_decstbm_np; exact HW | apply cmd_window_np; exact HW
         | wok HW | werr HW | wlift HW | idtac ].
-  all: try (repeat match goal with |- NP _ (match ?z with _ => _ end) => destruct z end; first [wok HW|werr HW|wlift HW]).
+  all: try (repeat match goal with |- NP (match ?z with _ => _ end) => destruct z end; first [wok HW|werr HW|wlift HW]).
   (* CVT: limit after an iteration that keeps the geometry; CBT: iteration of a W-preserving step *)
   all: try (apply np_lift; eapply limit_okW; [apply HW|]; apply iter_G; intro; reflexivity).
   all: try (apply np_ok; apply iter_W; [apply cbt_step_W|exact HW]).
 Qed.
-Lemma csi_cmd_np : forall Q t p ch, W t -> NP Q (csi_cmd t p ch).
+Lemma csi_cmd_np : forall t p ch, W t -> NP (csi_cmd t p ch).
 Proof.
-  intros Q t p ch HW. unfold csi_cmd.
+  intros t p ch HW. unfold csi_cmd.
   repeat match goal with
-         | |- NP _ (if ?c then _ else _) => destruct c
-         | |- NP _ (match ?l with [] => _ | _ :: _ => _ end) => destruct l
+         | |- NP (if ?c then _ else _) => destruct c
+         | |- NP (match ?l with [] => _ | _ :: _ => _ end) => destruct l
          end; first [ wok HW | werr HW | idtac ].
-  all: repeat match goal with |- NP _ (match ?z with _ => _ end) => destruct z end; first [wok HW|werr HW].
+  all: repeat match goal with |- NP (match ?z with _ => _ end) => destruct z end; first [wok HW|werr HW].
 Qed.
-Lemma csi_req_np : forall Q t p ch, W t -> NP Q (csi_req t p ch).
+Lemma csi_req_np : forall t p ch, W t -> NP (csi_req t p ch).
 Proof.
-  intros Q t p ch HW. unfold csi_req.
+  intros t p ch HW. unfold csi_req.
   repeat match goal with
-         | |- NP _ (if ?c then _ else _) => destruct c
-         | |- NP _ (match nums p with _ => _ end) => destruct (nums p) as [|n1 [|n2 [|n3 r]]] eqn:?
-         | |- NP _ (match ?l with [] => _ | _ :: _ => _ end) => destruct l
+         | |- NP (if ?c then _ else _) => destruct c
+         | |- NP (match nums p with _ => _ end) => destruct (nums p) as [|n1 [|n2 [|n3 r]]] eqn:?
+         | |- NP (match ?l with [] => _ | _ :: _ => _ end) => destruct l
          end; first [ apply cmd_reset_margins_np; exact HW | apply cmd_ssm_np; [eauto|exact HW] | wok HW | werr HW ].
 Qed.
-Lemma csi_devattr_np : forall Q t p ch, W t -> NP Q (csi_devattr t p ch).
-Proof. intros Q t p ch HW. unfold csi_devattr. wifs; first [wok HW|werr HW]. Qed.
-Lemma step_default_np : forall Q t p ch, W t -> NP Q (step_default t p ch).
-Proof. intros Q t p ch HW. unfold step_default. wifs; first [wok HW|wlift HW]. Qed.
+Lemma csi_devattr_np : forall t p ch, W t -> NP (csi_devattr t p ch).
+Proof. intros t p ch HW. unfold csi_devattr. wifs; first [wok HW|werr HW]. Qed.
+Lemma step_default_np : forall t p ch, W t -> NP (step_default t p ch).
+Proof. intros t p ch HW. unfold step_default. wifs; first [wok HW|wlift HW]. Qed.
 
 (* ---- one character, given a macro invoker that is itself safe ------------------------------------------------------------------------ *)
-Lemma astep_gen_np : forall Q invoke m,
-  forall ch, (forall t0 p0 id, W t0 -> macros p0 = macros (ps m) -> ch = 122 -> NP Q (invoke t0 p0 id)) ->
-  W (tm m) -> NP Q (astep_gen invoke m ch).
+Lemma astep_gen_np : forall invoke m,
+  forall ch, (forall t0 p0 id, W t0 -> macros p0 = macros (ps m) -> ch = 122 -> NP (invoke t0 p0 id)) ->
+  W (tm m) -> NP (astep_gen invoke m ch).
 Proof.
-  intros Q invoke [t p] ch Hinv HW. cbn [ps] in Hinv. cbn [tm] in HW. unfold astep_gen. cbn [tm ps].
+  intros invoke [t p] ch Hinv HW. cbn [ps] in Hinv. cbn [tm] in HW. unfold astep_gen. cbn [tm ps].
   destruct (st p) eqn:ST.
   - (* SDefault *) apply step_default_np; exact HW.
   - (* SEsc *)
@@ -229,13 +227,13 @@ Proof.
   - apply csi_devattr_np; exact HW.
   - (* SEndCsi: the macro invoker is reached only by the character z *)
     destruct (Z.eqb_spec ch 122) as [E122|N122];
-    repeat match goal with |- NP _ (if ?c then _ else _) => destruct c end;
+    repeat match goal with |- NP (if ?c then _ else _) => destruct c end;
       try (first [ wok HW | werr HW | wlift HW
                  | apply cmd_fill_rect_np; exact HW | apply cmd_erase_rect_np; exact HW
                  | apply cmd_sel_erase_rect_np; exact HW | apply cmd_font_selection_np; exact HW ]).
     all: try (destruct (nums p) as [|id r]; [wok HW|];
               pose proof (Hinv t (dflt p) id HW eq_refl E122) as G; destruct (invoke t (dflt p) id); exact G).
-    all: try (repeat match goal with |- NP _ (match ?l with _ => _ end) => destruct l end; try werr HW; wifs; first [wok HW|werr HW]).
+    all: try (repeat match goal with |- NP (match ?l with _ => _ end) => destruct l end; try werr HW; wifs; first [wok HW|werr HW]).
   - (* SDcs *) wifs; wok HW.
   - (* SDcsEsc *) wifs; try wok HW. apply execute_dcs_np; exact HW.
   - (* SDcsMacro *)
@@ -248,104 +246,29 @@ Proof.
   - wifs; try wok HW. apply parse_osc_np; exact HW.
 Qed.
 
-Lemma feed_macro_np : forall Q stepf, (forall m c, W (tm m) -> NP Q (stepf m c)) ->
-  forall body t0 p0, W t0 -> NP Q (feed_macro stepf body t0 p0).
+Lemma feed_macro_np : forall stepf, (forall m c, W (tm m) -> NP (stepf m c)) ->
+  forall body t0 p0, W t0 -> NP (feed_macro stepf body t0 p0).
 Proof.
-  intros Q stepf Hs body t0 p0 HW. unfold feed_macro.
-  assert (G0 : NP Q (ok t0 p0)) by exact HW.
+  intros stepf Hs body t0 p0 HW. unfold feed_macro.
+  assert (G0 : NP (ok t0 p0)) by exact HW.
   generalize dependent (ok t0 p0). induction body as [|c r IH]; intros o Go; cbn; [exact Go|].
-  apply IH. destruct o as [m1|m1|s|]; try exact Go.
-  - pose proof (Hs m1 c Go) as G. destruct (stepf m1 c); exact G.
-  - pose proof (Hs m1 c Go) as G. destruct (stepf m1 c); exact G.
+  apply IH. destruct o as [m1|m1|s|m1]; try exact Go.
+  pose proof (Hs m1 c Go) as G. destruct (stepf m1 c); exact G.
 Qed.
 
-(* ANY macro table, ANY nesting bound: never a panic; the nesting overflow is the only way not to end in a state *)
-Lemma astep_np : forall fuel m ch, W (tm m) -> NP True (astep fuel m ch).
+(* ANY macro table, ANY nesting budget: never a panic; an invocation beyond the budget is an error value that leaves the
+   screen state as it was *)
+Lemma astep_np : forall fuel m ch, W (tm m) -> NP (astep fuel m ch).
 Proof.
   induction fuel as [|k IH]; intros m ch HW; cbn [astep]; apply astep_gen_np; try exact HW.
-  - intros t0 p0 id H0 _ _. destruct (lookup id (macros p0)); [exact I|exact H0].
+  - intros t0 p0 id H0 _ _. destruct (lookup id (macros p0)); exact H0.
   - intros t0 p0 id H0 _ _. destruct (lookup id (macros p0)) as [body|]; [|exact H0]. apply feed_macro_np; [exact IH|exact H0].
 Qed.
-(* no macro stored: not even the nesting overflow *)
-Lemma astep_np_nomacro : forall fuel m ch, W (tm m) -> macros (ps m) = [] -> NP False (astep fuel m ch).
-Proof.
-  intros fuel m ch HW HM. destruct fuel; cbn [astep]; apply astep_gen_np; try exact HW;
-    intros t0 p0 id H0 E _; rewrite E, HM; exact H0.
-Qed.
-Lemma astep_np_or : forall (Q : Prop) fuel m ch, W (tm m) -> (Q \/ macros (ps m) = []) -> NP Q (astep fuel m ch).
-Proof.
-  intros Q fuel m ch HW [HQ|HM].
-  - eapply np_weaken; [|apply astep_np; exact HW]. intro; exact HQ.
-  - eapply np_weaken; [|apply astep_np_nomacro; assumption]. intros [].
-Qed.
 
-(* the macro invoker is reached only by the character z: any other character cannot overflow the nesting, whatever is stored *)
-Lemma astep_np_not_z : forall fuel m ch, W (tm m) -> ch <> 122 -> NP False (astep fuel m ch).
-Proof.
-  intros fuel m ch HW N. destruct fuel; cbn [astep]; apply astep_gen_np; try exact HW; intros t0 p0 id H0 _ E; contradiction.
-Qed.
-
-(* ---- the macro table stays empty unless a DCS string is completed (ESC \) --------------------------------------------------------- *)
-Definition MP (o : outcome) : Prop := match o with OOk m | OErr m => macros (ps m) = [] | _ => True end.
-Ltac mp_leaf HM :=
-  cbv [MP ok err lift macros ps dflt mus start_music set_st set_nums set_saved_pos set_saved_cur set_last set_music set_pstr set_mdcs
-       set_macros set_hlinks set_bice set_fonts set_resized];
-  repeat (match goal with |- context [if ?c then _ else _] => destruct c end);
-  first [ exact HM | reflexivity | exact I ].
-Ltac mp_split :=
-  unfold lift;
-  repeat match goal with
-         | |- MP (if ?c then _ else _) => destruct c
-         | |- MP (match ?x with _ => _ end) => destruct x
-         | |- MP (let '(_, _) := ?x in _) => destruct x
-         end.
-Lemma astep_gen_mp : forall invoke m ch,
-  (forall t0 p0 id, macros p0 = [] -> MP (invoke t0 p0 id)) ->
-  macros (ps m) = [] -> ch <> 92 -> MP (astep_gen invoke m ch).
-Proof.
-  intros invoke [t p] ch Hinv HM N. cbn [ps] in HM. unfold astep_gen. cbn [tm ps].
-  destruct (Z.eqb_spec ch 92) as [E92|_]; [contradiction|].
-  destruct (st p) eqn:ST.
-  - unfold step_default. mp_split; mp_leaf HM.
-  - mp_split; mp_leaf HM.
-  - unfold csi_final, cmd_sgr, cmd_decslrm, cmd_ech, cmd_csr, cmd_decstbm, cmd_window, hpos_line. mp_split; mp_leaf HM.
-  - unfold csi_cmd. mp_split; mp_leaf HM.
-  - unfold csi_req, cmd_reset_margins, cmd_ssm. mp_split; mp_leaf HM.
-  - unfold step_default. mp_split; mp_leaf HM.
-  - unfold csi_devattr. mp_split; mp_leaf HM.
-  - unfold cmd_fill_rect, cmd_erase_rect, cmd_sel_erase_rect, cmd_font_selection, lift.
-    repeat match goal with
-           | |- MP (if ?c then _ else _) => destruct c
-           | |- MP (match nums p with _ => _ end) => destruct (nums p) as [|n1 [|n2 [|n3 [|n4 [|n5 [|n6 [|n7 r]]]]]]]
-           | |- MP (let '(_, _) := ?x in _) => destruct x
-           | |- MP (match iter_res ?a ?b ?c with _ => _ end) => destruct (iter_res a b c)
-           end; try (mp_leaf HM).
-    all: match goal with |- MP (match ?f ?a ?b ?c with _ => _ end) =>
-           assert (G : MP (f a b c)) by (apply Hinv; exact HM); destruct (f a b c); exact G end.
-  - mp_split; mp_leaf HM.
-  - mp_split; mp_leaf HM.
-  - repeat match goal with
-           | |- MP (if ?c then _ else _) => destruct c
-           | |- MP (match nums ?q with _ => _ end) => destruct (nums q) as [|n1 [|n2 r]]
-           end; try (mp_leaf HM).
-    apply Hinv. exact HM.
-  - unfold parse_music, parse_default_music. destruct m; mp_split; mp_leaf HM.
-  - mp_split; mp_leaf HM.
-  - mp_split; mp_leaf HM.
-  - mp_split; mp_leaf HM.
-  - mp_split; mp_leaf HM.
-Qed.
-Lemma astep_keeps_nomacro : forall fuel m ch, macros (ps m) = [] -> ch <> 92 -> MP (astep fuel m ch).
-Proof.
-  intros fuel m ch HM N. destruct fuel; cbn [astep]; apply astep_gen_mp; auto; intros t0 p0 id E; rewrite E; exact E.
-Qed.
-
-(* the statement in one piece: an action or an error value on a W state again; never a panic; the nesting overflow only
-   while a macro is stored *)
+(* the statement in one piece: an action or an error value on a W state again; never a panic *)
 Lemma astep_char_total : forall fuel m ch, W (tm m) ->
-  match astep fuel m ch with OOk m' | OErr m' => W (tm m') | OPanic _ => False | ODiverge => macros (ps m) <> [] end.
-Proof.
-  intros fuel m ch HW. destruct (macros (ps m)) as [|a l] eqn:E.
-  - pose proof (astep_np_nomacro fuel m ch HW E) as G. destruct (astep fuel m ch); try exact G. contradiction.
-  - pose proof (astep_np fuel m ch HW) as G. destruct (astep fuel m ch); try exact G. discriminate.
-Qed.
+  match astep fuel m ch with OOk m' | OErr m' | ODeep m' => W (tm m') | OPanic _ => False end.
+Proof. exact astep_np. Qed.
+(* print_char as its callers see it (the nesting counter is 0 on entry: the full budget MAX_MACRO_NESTING) *)
+Lemma ansi_step_np : forall m ch, W (tm m) -> NP (ansi_step m ch).
+Proof. intros m ch HW. apply astep_np. exact HW. Qed.
